@@ -4,7 +4,7 @@ from checks import rtcommon
 
 def run(ctx):
     args = (["--n", "500", "--maxdim", "64", "--exh", "1"] if ctx.quick
-            else ["--n", "6000", "--maxdim", "128", "--exh", "2", "--big"])
+            else ["--n", "24000", "--maxdim", "128", "--exh", "2", "--big"])
     return rtcommon.run_contract(
         ctx, "c05", args, class_keys=None,
         rule="scenario = Encode then Decode of the registered .90 / .92 codec through PixelData (1..3 frames); parameter objects: "
